@@ -94,7 +94,7 @@ func main() {
 
 	// 3b. tables of a few very large int64-sized powers (total < 2^63)
 	for i := 0; i < 200; i++ {
-		k := 2 + rng.Intn(4)
+		k := 2 + rng.Intn(6)
 		entries := make(gpbft.PowerEntries, k)
 		strs := make([]string, k)
 		for j := range entries {
@@ -119,6 +119,26 @@ func main() {
 				ordered[j] = e.Power.String()
 			}
 			out.Line("scaled %s => %s %d", join(ordered), vh.JoinInts(pt.ScaledPower), pt.ScaledTotal)
+			// a copy that grows must leave the table it was copied from alone (Copy is the only way callers get a
+			// table they may extend): same line again for the original after Copy + Add on the copy
+			cp := pt.Copy()
+			extra := make(gpbft.PowerEntries, 1+rng.Intn(3))
+			for j := range extra {
+				ep := big.NewInt(int64(1 + rng.Intn(1_000_000)))
+				if rng.Chance(1, 2) {
+					// a member that outweighs the existing ones
+					ep = new(big.Int).Lsh(big.NewInt(int64(1+rng.Intn(7))), uint(58+rng.Intn(6)))
+				}
+				extra[j] = gpbft.PowerEntry{ID: gpbft.ActorID(1000 + j), Power: gpbft.StoragePower{Int: ep}, PubKey: gpbft.PubKey{1}}
+			}
+			if err := cp.Add(extra...); err == nil {
+				out.Line("scaled %s => %s %d", join(ordered), vh.JoinInts(pt.ScaledPower), pt.ScaledTotal)
+				co := make([]string, len(cp.Entries))
+				for j, e := range cp.Entries {
+					co[j] = e.Power.String()
+				}
+				out.Line("scaled %s => %s %d", join(co), vh.JoinInts(cp.ScaledPower), cp.ScaledTotal)
+			}
 		}
 	}
 
